@@ -997,6 +997,346 @@ def an_regenerate(repo, report):
 
 
 # ------------------------------------------------------------------------------------------------
+# (D) Calculator::reset, the footpath part
+
+RS_SRC = "connection_scan_algorithm/src/resets.cpp"
+RS_SIG = "Calculator::reset("
+RS_OUT = os.path.join(VERIF, "coq", "gen", "Reset.v")
+RS_ZVARS = {"departureTimeSeconds": ("ZDep", "(z_dep m)"), "arrivalTimeSeconds": ("ZArr", "(z_arr m)"),
+            "minAccessTravelTime": ("ZMinAcc", "(z_minacc m)"), "maxAccessTravelTime": ("ZMaxAcc", "(z_maxacc m)"),
+            "minEgressTravelTime": ("ZMinEgr", "(z_minegr m)"), "maxEgressTravelTime": ("ZMaxEgr", "(z_maxegr m)"),
+            "footpathTravelTimeSeconds": ("ZT", "(z_t m)"), "footpathDistanceMeters": ("ZDist", "(z_dist m)")}
+RS_FLAGS = {"accessFootpathOk": ("ZAccOk", "(z_accok m)"), "egressFootpathOk": ("ZEgrOk", "(z_egrok m)")}
+RS_ROWS = {"accessFootpaths": ("ZAccFp", "(z_accfp m)"), "egressFootpaths": ("ZEgrFp", "(z_egrfp m)"),
+           "nodesAccess": ("ZNodesAcc", "(z_nacc m)"), "nodesEgress": ("ZNodesEgr", "(z_negr m)")}
+RS_TABS = {"nodesTentativeTime": "ZTau", "nodesReverseTentativeTime": "ZTauR"}
+RS_STEPS = {"forwardJourneysSteps": "ZFSteps", "reverseJourneysSteps": "ZRSteps"}
+RS_ATOMS = {k: (v[1], Z) for k, v in RS_ZVARS.items()}
+RS_ATOMS.update({k: (v[1], B) for k, v in RS_FLAGS.items()})
+RS_ATOMS.update({
+    "MAX_INT": ("MAX_INT", Z),
+    "origin.has_value()": ("(ze_origin e)", B), "destination.has_value()": ("(ze_dest e)", B),
+    "resetAccessPaths": ("(ze_fresh e)", B), "doResetFilters": ("(ze_dofilters e)", B),
+    "odTripGlob.has_value()": ("(ze_odtrip e)", B),
+    "odTripGlob.value().get().departureTimeSeconds": ("(ze_odtrip_dep e)", Z),
+    "parameters.isForwardCalculation()": ("(q_fwd (ze_p e))", B),
+    "parameters.getTimeOfTrip()": ("(q_time (ze_p e))", Z),
+    "parameters.getMaxAccessWalkingTravelTimeSeconds()": ("(q_maxacc (ze_p e))", Z),
+    "parameters.getMaxEgressWalkingTravelTimeSeconds()": ("(q_maxegr (ze_p e))", Z),
+    "accessFootpaths.size()": ("(Z.of_nat (length (z_accfp m)))", Z),
+    "egressFootpaths.size()": ("(Z.of_nat (length (z_egrfp m)))", Z),
+    "accessFootpath.distance": ("(fp_dist (z_row m))", Z), "egressFootpath.distance": ("(fp_dist (z_row m))", Z),
+})
+RS_IGNORED = [r"^calculationTime=algorithmCalculationTime\.getDurationMicrosecondsNoStop\(\)$",
+              r"^(?:access|egress)Footpaths\.shrink_to_fit\(\)$", r"^intfootpathTravelTimeSeconds$", r"^intfootpathDistanceMeters$"]
+RS_HELPERS = {"accessFootpathOk": ("Calculator::resetAccessFootpaths(", "origin"),
+              "egressFootpathOk": ("Calculator::resetEgressFootpaths(", "destination")}
+RS_REASONS = {"NO_ACCESS_AT_ORIGIN_AND_DESTINATION": "R_NO_ACCESS_AT_ORIGIN_AND_DESTINATION",
+              "NO_ACCESS_AT_ORIGIN": "R_NO_ACCESS_AT_ORIGIN", "NO_ACCESS_AT_DESTINATION": "R_NO_ACCESS_AT_DESTINATION"}
+
+
+def rs_z(text):
+    return parse_expr(text, Z, RS_ATOMS)
+
+
+def rs_statement(text, src, var):
+    """var: name of the range-for variable of the enclosing loop, or None"""
+    t = flat(text)
+    if SK.LOGGING.match(t) or any(re.match(rx, t) for rx in RS_IGNORED):
+        return []
+    key = "(fp_node (z_row m))"
+    m = re.match(r"^(?:constbool|bool)?(\w+)=(?!=)(.+)$", t)
+    if m and m.group(1) in RS_FLAGS:
+        flag, rhs = m.group(1), m.group(2)
+        hm = re.match(r"^reset(Access|Egress)Footpaths\(parameters,(origin|destination)\.value\(\)\)$", rhs)
+        if hm:
+            sig, point = RS_HELPERS[flag]
+            if (hm.group(1) == "Access") != (flag == "accessFootpathOk") or hm.group(2) != point:
+                raise Untranslatable("unexpected helper call: " + t[:80])
+            return rs_helper(src, sig, flag, point)
+        if rhs in ("true", "false"):
+            return [("ZSetFlag", RS_FLAGS[flag][0], rhs)]
+        return [("ZSetFlag", RS_FLAGS[flag][0], parse_expr(rhs, B, RS_ATOMS))]
+    hm = re.match(r"^reset(Access|Egress)Footpaths\(parameters,(origin|destination)\.value\(\)\)$", t)
+    if hm and (hm.group(1) == "Access") == (hm.group(2) == "origin"):
+        # the helper called for its effect only
+        return rs_helper(src, "Calculator::reset%sFootpaths(" % hm.group(1), None, hm.group(2))
+    m = re.match(r"^(\w+)\.clear\(\)$", t)
+    if m and m.group(1) in RS_ROWS:
+        return [("ZSetRows", RS_ROWS[m.group(1)][0], "nil")]
+    if m and m.group(1) in RS_STEPS:
+        return [("ZAssignSteps", RS_STEPS[m.group(1)])]
+    m = re.match(r"^(\w+)\.assign\(Node::getMaxUid\(\)\+1,(.+)\)$", t)
+    if m and m.group(1) in RS_STEPS and m.group(2) == "JourneyStep()":
+        return [("ZAssignSteps", RS_STEPS[m.group(1)])]
+    if m and m.group(1) in RS_TABS:
+        return [("ZAssignTable", RS_TABS[m.group(1)], rs_z(m.group(2)))]
+    if t == "tripsQueryOverlay.assign(Trip::getMaxUid()+1,TripQueryData())":
+        return [("ZResetOverlay",)]
+    if t == "resetFilters(parameters)":
+        return [("ZResetFilters",)]
+    m = re.match(r"^(access|egress)Footpaths=geoFilter\.getAccessibleNodesFootpathsFromPoint\((origin|destination),transitData\.getNodes\(\),(.+),parameters\.getWalkingSpeedMetersPerSecond\(\)\)$", t)
+    if m:
+        return [("ZSetRows", RS_ROWS[m.group(1) + "Footpaths"][0],
+                 "(ze_lookup e %s %s)" % ("true" if m.group(2) == "origin" else "false", rs_z(m.group(3))))]
+    if var is not None:
+        m = re.match(r"^footpathTravelTimeSeconds=\(int\)ceil\(\(float\)\(" + var + r"\.time\)/parameters\.getWalkingSpeedFactor\(\)\)$", t)
+        if m:
+            return [("ZSetZ", "ZT", "(fp_time (z_row m))")]
+        m = re.match(r"^(\w+)\.emplace\(" + var + r"\.node\.uid,NodeTimeDistance\(" + var + r"\.node,(.+)\)\)$", t)
+        if m and m.group(1) in RS_ROWS:
+            a = GE.split_top(m.group(2), ",")
+            if len(a) == 2:
+                return [("ZEmplace", RS_ROWS[m.group(1)][0], "{| fp_node := fp_node (z_row m); fp_time := %s; fp_dist := %s |}" % (rs_z(a[0]), rs_z(a[1])))]
+        m = re.match(r"^(\w+)\.at\(" + var + r"\.node\.uid\)=JourneyStep\(std::nullopt,std::nullopt,std::nullopt,(.+)\)$", t)
+        if m and m.group(1) in RS_STEPS:
+            a = GE.split_top(m.group(2), ",")
+            if len(a) == 3 and a[1] in ("true", "false"):
+                return [("ZSetStep", RS_STEPS[m.group(1)], key, "(x_walk %s %s %s)" % (rs_z(a[0]), a[1], rs_z(a[2])))]
+        m = re.match(r"^(\w+)\[" + var + r"\.node\.uid\]=(?!=)(.+)$", t)
+        if m and m.group(1) in RS_TABS:
+            return [("ZSetTable", RS_TABS[m.group(1)], key, rs_z(m.group(2)))]
+    m = re.match(r"^(?:int)?(\w+)(\+=|-=|=)(?!=)(.+)$", t)
+    if m and m.group(1) in RS_ZVARS:
+        v, old = RS_ZVARS[m.group(1)]
+        rhs = rs_z(m.group(3))
+        if m.group(2) != "=":
+            rhs = "(%s %s %s)" % (old, m.group(2)[0], rhs)
+        return [("ZSetZ", v, rhs)]
+    raise Untranslatable("unrecognised statement: " + t[:90])
+
+
+def rs_helper(src, sig, flag, point):
+    """the body of resetAccessFootpaths / resetEgressFootpaths, inlined: its local flag is the caller's"""
+    body = GG.fn_body(src, sig)
+    nodes, k, returned = [], SK.skip_ws(body, 1), False
+    while k < len(body) and body[k] != "}":
+        if SK.keyword_at(body, k, "return"):
+            j = body.index(";", k)
+            if flag is None or flat(body[k:j]) != "return" + flag:
+                raise Untranslatable("the helper does not return what the caller assigns")
+            returned = True
+            break
+        ns, k = SK.parse_stmt(body, k)
+        nodes += ns
+        k = SK.skip_ws(body, k)
+    if not returned and flag is not None:
+        raise Untranslatable("helper without return")
+    return rs_convert(nodes, src, None)
+
+
+def rs_convert(nodes, src, var):
+    out = []
+    for n in nodes:
+        if n[0] == "stmt":
+            out += rs_statement(n[1], src, var)
+        elif n[0] == "if":
+            cond = flat(n[1])
+            if cond == "odTripGlob.has_value()":
+                th = [("ZUnmodelled",)]
+            else:
+                th = rs_convert(n[2], src, var)
+            el = rs_convert(n[3], src, var)
+            if th or el:
+                out.append(("ZIf", parse_expr(cond, B, RS_ATOMS), th, el))
+        elif n[0] == "for":
+            m = re.match(r"^auto&(\w+):(\w+)$", flat(n[1]))
+            if not m or m.group(2) not in RS_ROWS or var is not None:
+                raise Untranslatable("unrecognised loop: for(%s)" % flat(n[1])[:80])
+            out.append(("ZForRows", RS_ROWS[m.group(2)][0], rs_convert(n[2], src, m.group(1)), m.group(2)))
+        elif n[0] == "throw":
+            m = re.match(r"^NoRoutingFoundException\(NoRoutingReason::(\w+)\)$", flat(n[1]))
+            if not m or m.group(1) not in RS_REASONS:
+                raise Untranslatable("unrecognised exception: " + flat(n[1])[:80])
+            out.append(("ZThrow", RS_REASONS[m.group(1)]))
+        else:
+            raise Untranslatable("`%s` in reset()" % n[0])
+    return out
+
+
+def rs_emit(nodes, indent, defs):
+    pad = "  " * indent
+    if not nodes:
+        return "ZDone"
+    n, rest = nodes[0], nodes[1:]
+    c = n[0]
+    if c == "ZThrow":
+        if rest:
+            raise Untranslatable("statements after throw")
+        return "ZThrow %s" % n[1]
+    k = rs_emit(rest, indent, defs)
+    fn = lambda x: "(fun e m => %s)" % x
+    if c in ("ZResetOverlay", "ZResetFilters", "ZUnmodelled"):
+        return "%s\n%s(%s)" % (c, pad, k)
+    if c == "ZAssignSteps":
+        return "ZAssignSteps %s\n%s(%s)" % (n[1], pad, k)
+    if c in ("ZSetZ", "ZSetFlag", "ZSetRows", "ZEmplace", "ZAssignTable"):
+        return "%s %s %s\n%s(%s)" % (c, n[1], fn(n[2]), pad, k)
+    if c in ("ZSetTable", "ZSetStep"):
+        return "%s %s %s %s\n%s(%s)" % (c, n[1], fn(n[2]), fn(n[3]), pad, k)
+    if c == "ZIf":
+        return "ZIf %s\n%s  (%s)\n%s  (%s)\n%s(%s)" % (fn(n[1]), pad, rs_emit(n[2], indent + 1, defs), pad, rs_emit(n[3], indent + 1, defs), pad, k)
+    if c == "ZForRows":
+        name = "gen_reset_%s_row" % ("access" if n[3] == "accessFootpaths" else "egress")
+        if name in defs:
+            raise Untranslatable("two loops over " + n[3])
+        defs[name] = rs_emit(n[2], 1, defs)
+        return "ZForRows %s %s\n%s(%s)" % (n[1], name, pad, k)
+    raise Untranslatable("unexpected node " + c)
+
+
+def rs_translate(src):
+    body = GG.fn_body(src, RS_SIG)
+    nodes = SK.parse_list(body[1:-1])
+    defs = {}
+    defs["gen_reset_skel"] = rs_emit(rs_convert(nodes, src, None), 1, defs)
+    if set(defs) != set(n for n, _ in RS_DEFS):
+        raise Untranslatable("the loops over accessFootpaths / egressFootpaths were not both found")
+    return defs
+
+
+RS_DEFS = [("gen_reset_access_row", "the body of `for (auto & accessFootpath : accessFootpaths)`"),
+           ("gen_reset_egress_row", "the body of `for (auto & egressFootpath : egressFootpaths)`"),
+           ("gen_reset_skel", "reset(), with resetAccessFootpaths / resetEgressFootpaths inlined")]
+RS_HAND = dict(
+    gen_reset_egress_row="""ZSetZ ZT (fun e m => (fp_time (z_row m)))
+  (ZSetZ ZDist (fun e m => (fp_dist (z_row m)))
+  (ZEmplace ZNodesEgr (fun e m => {| fp_node := fp_node (z_row m); fp_time := (z_t m); fp_dist := (z_dist m) |})
+  (ZSetStep ZRSteps (fun e m => (fp_node (z_row m))) (fun e m => (x_walk (z_t m) false (z_dist m)))
+  (ZSetTable ZTauR (fun e m => (fp_node (z_row m))) (fun e m => ((z_arr m) - (z_t m)))
+  (ZIf (fun e m => ((z_t m) >? (z_maxegr m)))
+    (ZSetZ ZMaxEgr (fun e m => (z_t m))
+    (ZDone))
+    (ZDone)
+  (ZIf (fun e m => ((z_t m) <? (z_minegr m)))
+    (ZSetZ ZMinEgr (fun e m => (z_t m))
+    (ZDone))
+    (ZDone)
+  (ZDone)))))))""",
+    gen_reset_access_row="""ZSetZ ZT (fun e m => (fp_time (z_row m)))
+  (ZSetZ ZDist (fun e m => (fp_dist (z_row m)))
+  (ZEmplace ZNodesAcc (fun e m => {| fp_node := fp_node (z_row m); fp_time := (z_t m); fp_dist := (z_dist m) |})
+  (ZSetStep ZFSteps (fun e m => (fp_node (z_row m))) (fun e m => (x_walk (z_t m) false (z_dist m)))
+  (ZSetTable ZTau (fun e m => (fp_node (z_row m))) (fun e m => ((z_dep m) + (z_t m)))
+  (ZIf (fun e m => ((z_t m) <? (z_minacc m)))
+    (ZSetZ ZMinAcc (fun e m => (z_t m))
+    (ZDone))
+    (ZDone)
+  (ZIf (fun e m => ((z_t m) >? (z_maxacc m)))
+    (ZSetZ ZMaxAcc (fun e m => (z_t m))
+    (ZDone))
+    (ZDone)
+  (ZDone)))))))""",
+    gen_reset_skel="""ZSetFlag ZAccOk (fun e m => true)
+  (ZSetFlag ZEgrOk (fun e m => true)
+  (ZIf (fun e m => (ze_fresh e))
+    (ZSetRows ZAccFp (fun e m => nil)
+    (ZSetRows ZEgrFp (fun e m => nil)
+    (ZDone)))
+    (ZDone)
+  (ZResetOverlay
+  (ZAssignSteps ZFSteps
+  (ZAssignSteps ZRSteps
+  (ZSetZ ZDep (fun e m => (-1))
+  (ZSetZ ZArr (fun e m => (-1))
+  (ZIf (fun e m => ((ze_odtrip e) && (q_fwd (ze_p e))))
+    (ZSetZ ZDep (fun e m => (ze_odtrip_dep e))
+    (ZDone))
+    (ZIf (fun e m => (q_fwd (ze_p e)))
+      (ZSetZ ZDep (fun e m => (q_time (ze_p e)))
+      (ZDone))
+      (ZDone)
+    (ZDone))
+  (ZIf (fun e m => (negb (q_fwd (ze_p e))))
+    (ZSetZ ZArr (fun e m => (q_time (ze_p e)))
+    (ZDone))
+    (ZDone)
+  (ZSetZ ZMinAcc (fun e m => MAX_INT)
+  (ZSetZ ZMaxEgr (fun e m => (-1))
+  (ZSetZ ZMinEgr (fun e m => MAX_INT)
+  (ZSetZ ZMaxAcc (fun e m => (-1))
+  (ZIf (fun e m => (ze_origin e))
+    (ZIf (fun e m => (ze_fresh e))
+      (ZSetFlag ZAccOk (fun e m => true)
+      (ZIf (fun e m => (ze_odtrip e))
+        (ZUnmodelled
+        (ZDone))
+        (ZSetRows ZAccFp (fun e m => (ze_lookup e true (q_maxacc (ze_p e))))
+        (ZIf (fun e m => ((Z.of_nat (length (z_accfp m))) =? 0))
+          (ZSetFlag ZAccOk (fun e m => false)
+          (ZDone))
+          (ZDone)
+        (ZDone)))
+      (ZDone)))
+      (ZDone)
+    (ZSetRows ZNodesAcc (fun e m => nil)
+    (ZAssignSteps ZFSteps
+    (ZAssignTable ZTau (fun e m => MAX_INT)
+    (ZForRows ZAccFp gen_reset_access_row
+    (ZDone))))))
+    (ZDone)
+  (ZIf (fun e m => (ze_dest e))
+    (ZIf (fun e m => (ze_fresh e))
+      (ZSetFlag ZEgrOk (fun e m => true)
+      (ZIf (fun e m => (ze_odtrip e))
+        (ZUnmodelled
+        (ZDone))
+        (ZSetRows ZEgrFp (fun e m => (ze_lookup e false (q_maxegr (ze_p e))))
+        (ZIf (fun e m => ((Z.of_nat (length (z_egrfp m))) =? 0))
+          (ZSetFlag ZEgrOk (fun e m => false)
+          (ZDone))
+          (ZDone)
+        (ZDone)))
+      (ZDone)))
+      (ZDone)
+    (ZSetRows ZNodesEgr (fun e m => nil)
+    (ZAssignSteps ZRSteps
+    (ZAssignTable ZTauR (fun e m => (-1))
+    (ZForRows ZEgrFp gen_reset_egress_row
+    (ZDone))))))
+    (ZDone)
+  (ZIf (fun e m => ((negb (z_egrok m)) && (negb (z_accok m))))
+    (ZThrow R_NO_ACCESS_AT_ORIGIN_AND_DESTINATION)
+    (ZIf (fun e m => (negb (z_accok m)))
+      (ZThrow R_NO_ACCESS_AT_ORIGIN)
+      (ZIf (fun e m => (negb (z_egrok m)))
+        (ZThrow R_NO_ACCESS_AT_DESTINATION)
+        (ZDone)
+      (ZDone))
+    (ZDone))
+  (ZIf (fun e m => (ze_dofilters e))
+    (ZResetFilters
+    (ZDone))
+    (ZDone)
+  (ZDone))))))))))))))))))""")
+
+
+def rs_regenerate(repo, report):
+    origin = "source"
+    try:
+        defs = rs_translate(GG.strip_c_comments(open(os.path.join(repo, RS_SRC)).read()))
+    except (Untranslatable, GG.Untranslatable, ValueError, OSError) as e:
+        if RS_HAND is None:
+            raise RuntimeError("reset: %s, and no committed tree to fall back to" % e)
+        origin = "fallback"
+        report["fallback"].append("reset: %s" % e)
+        defs = RS_HAND
+    report["functions"]["reset"] = origin
+    lines = [
+        "(* GENERATED by tools/gen_loops.py from /repo's resets.cpp (Calculator::reset, resetAccessFootpaths, resetEgressFootpaths) - do not edit.",
+        "   reset: %s *)" % origin,
+        "From Coq Require Import List ZArith Bool.",
+        "From TrV Require Import Scan Journey Calc.",
+        "Require Import TrV.Reset.",
+        "Local Open Scope Z_scope.",
+        "Local Open Scope bool_scope.",
+        ""]
+    for name, what in RS_DEFS:
+        lines += ["(* %s *)" % what, "Definition %s : zskel :=\n  %s." % (name, defs[name]), ""]
+    return write_if_changed(RS_OUT, "\n".join(lines))
+
+
+# ------------------------------------------------------------------------------------------------
 
 def regenerate():
     repo = os.environ.get("TRV_REPO", "/repo")
@@ -1004,6 +1344,7 @@ def regenerate():
     changed = rb_regenerate(repo, report)
     changed = al_regenerate(repo, report) or changed
     changed = an_regenerate(repo, report) or changed
+    changed = rs_regenerate(repo, report) or changed
     report["changed"] = changed
     report["from_source"] = sum(1 for v in report["functions"].values() if v == "source")
     report["total"] = len(report["functions"])
@@ -1012,7 +1353,7 @@ def regenerate():
 
 def print_hand():
     repo = os.environ.get("TRV_REPO", "/repo")
-    for var, fn, path in (("RB_HAND", rb_translate, RB_SRC), ("AL_HAND", al_translate, AL_SRC)):
+    for var, fn, path in (("RB_HAND", rb_translate, RB_SRC), ("AL_HAND", al_translate, AL_SRC), ("RS_HAND", rs_translate, RS_SRC)):
         defs = fn(GG.strip_c_comments(open(os.path.join(repo, path)).read()))
         print("%s = dict(\n%s)" % (var, ",\n".join("    %s=\"\"\"%s\"\"\"" % (k, v) for k, v in defs.items())))
     print("AN_HAND = dict(")
